@@ -228,13 +228,15 @@ def run(ctx):
         row = results[ri]["rows"][wi]
         nat_ok = rep.startswith("OK")
         nat = ("OK " + re.match(r"OK (\S*)", rep).group(1)) if nat_ok else ("ERR at=" + re.match(r"ERR at=(\S+)", rep).group(1) if rep.startswith("ERR") else rep)
+        if nat.startswith("PANIC") and row["impl"].startswith("PANIC"):
+            nat = row["impl"] = "PANIC"          # the wording of a panic message is not part of the encoding
         if nat != row["impl"]:
             enc.append({"input": row["inp"], "pred": row["impl"], "native": rep}); continue
         validated += 1
         want = ("OK " + row["ref"]) if row["ref"] is not None else None
         accepted += row["ref"] is not None
-        if (want is None) != (not nat_ok) or (want is not None and want != nat):
-            what = f"input {row['inp']} ({bytes.fromhex(row['inp']) if row['inp'] != '-' else b''!r}): pest_grammars JSON -> {nat[:200]}; RFC 8259 -> {want or 'not a JSON text'}"
+        if (want is None) != (not nat_ok) or (want is not None and want != nat) or nat == "PANIC":
+            what = f"input {row['inp']} ({bytes.fromhex(row['inp']) if row['inp'] != '-' else b''!r}): pest_grammars JSON -> {(rep if nat == 'PANIC' else nat)[:200]}; RFC 8259 -> {want or 'not a JSON text'}"
             if len(ctx.violations) < 10:
                 pth = save_replay(ctx, f"json-{abs(hash(row['inp'])) % 10**8}.json", {"input": row["inp"], "want": want})
                 ctx.violations.append((what, pth, row["inp"]))
@@ -267,6 +269,6 @@ def replay(ctx, path):
     rep = gensym.run_native(b, [f"0 json {d['input']}"])[0]
     print("native:", rep); print("RFC 8259:", d["want"])
     nat = ("OK " + re.match(r"OK (\S*)", rep).group(1)) if rep.startswith("OK") else None
-    if nat != d["want"]:
+    if nat != d["want"] or rep.startswith("PANIC"):
         print(f"VIOLATION property=C18 replay={path}"); return 1
     print("replay: agrees"); return 0
